@@ -424,7 +424,7 @@ def gen_scenario(rng, max_clients=3, max_jobs=4, queries=True):
             put(['stop', j])
     if queries:
         for _ in range(rng.choice([0, 0, 1, 2, 3])):
-            q = rng.choice(['has_jobs', 'is_running', 'get_current', 'get_queued', 'is_running'])
+            q = rng.choice(['has_jobs', 'is_running', 'get_current', 'get_queued', 'is_running', 'is_running'])
             put([q, rng.randint(1, nj)] if q == 'is_running' else [q])
         if rng.random() < 0.2:
             put(['clear'])
@@ -490,6 +490,16 @@ def judge(scn, out):
                 obs.append('%s_job raises IndexError: clear_queue() emptied the queue between len() and popleft()' % op[0])
             else:
                 viol.append(('C08/call-raises-%s-%s' % (op[0] if op else 'unknown', exc), '%s raises %s' % (op, exc)))
+    # the public answer of is_running(name): True whenever the background job of that name was registered before the
+    # call began and is still registered when it returns ("reported as running under their name exactly while they execute")
+    for i, e in enumerate(entries):
+        if e[1][0] == 'LMark' and e[1][1] == 4 and e[2][0] == 'bool':
+            op = op_of_mark(scn, entries, i)
+            if op and op[0] == 'is_running':
+                start = max([k + 1 for k in range(i) if entries[k][0] == e[0] and entries[k][1][0] == 'LMark' and entries[k][1][1] in (4, 5)] or [0])
+                if registered_at(entries, start, op[1]) and registered_at(entries, i, op[1]) and e[2][1] is not True:
+                    viol.append(('C08/background-job-not-reported-running',
+                                 'is_running(n%d) answers False although the background job of that name was registered before the call and still is when it returns' % op[1]))
     for t, name in sorted(res.died.items()):
         if name == 'JobError':
             continue
